@@ -150,8 +150,11 @@ def components(ctx):
 
 
 def check(ctx):
+    # events/events_network.c is one of this property's files: the socket-readiness bookkeeping (pollfd slots, scan cursor,
+    # compaction) is modelled and proved in C04; its component (real event loop, scripted poll, C04 monitor) runs here too.
+    from props import c04 as _c04
     return vlib.standard_check(
-        ctx, MODULES, components(ctx),
+        ctx, MODULES + _c04.MODULES, components(ctx) + _c04.components(ctx),
         assumptions=["the kernel's recv/send/accept/connect/poll are replaced by scripted answers (any partial length, EAGAIN/EWOULDBLOCK/EINTR, EOF, hard errors)",
                      "requests sit on the event loop's one-shot registration contract (C04)",
                      "minread/minwrite <= buflen and buflen > 0 (asserted by the API)"],
